@@ -35,6 +35,7 @@ VEMPTY = r"validate_empty$"
 EXPLANATION += " (R1, round 8) the production validate closure is an evaluated table (accepts exactly when validate_empty and validate_entry succeeded on the entry it received, for this replica's id, origin Sync). (R10) every implementation of PublicKeyStore::public_key evaluated: the key an id resolves to is parsed from exactly that id; the cache is looked up and filled under the id itself."
 EXPLANATION += " Round 9: (R4) the pinned canonical layout evaluated (Entry::encode: identifier, big-endian length, hash, big-endian timestamp); (R11) = C07.R1: a merge never changes the replica's namespace."
 EXPLANATION += ' (R12, round 10) sync::system_time_now evaluated: microseconds since the epoch of SystemTime::now() and nothing else (no static high-water mark).'
+EXPLANATION += " (R13, round 12) the key algebra of src/keys.rs evaluated function by function: ids, public keys and secrets convert into each other through exactly their own bytes (what local authoring signs with is what the entry's ids verify with)."
 
 
 def production_closures(f):
@@ -752,6 +753,12 @@ def r12(ctx):
     ctx.floor("C03.R12", 1)
 
 
+def r13(ctx):
+    """the key algebra of src/keys.rs evaluated (rules/keyalg.py): the key an id verifies with is parsed from the id's own bytes, a secret signs with itself and its id is the bytes of its own public key"""
+    from . import keyalg
+    keyalg.check(ctx, "C03.R13")
+    ctx.floor("C03.R13", 40)
+
 def run(ctx):
     ctx.run_rule("C03.R1", r1)
     ctx.run_rule("C03.R2", r2)
@@ -765,3 +772,4 @@ def run(ctx):
     ctx.run_rule("C03.R10", r10)
     ctx.run_rule("C03.R11", r11)
     ctx.run_rule("C03.R12", r12)
+    ctx.run_rule("C03.R13", r13)
